@@ -289,3 +289,6 @@ _extend("C07", "default-pairing rule (macro provenance)", "Also decides that an 
                "and data with the default named for data.")
 _extend("C06", "default-pairing rule (macro provenance)", "Also decides the same pairing for every precision member initialised from a named default.")
 _extend("C16", "one-sided success returns", "Also decides that vnacal_delete_parameter refuses negative handles instead of treating them like the predefined ones.")
+_extend("C12", "failure-class rule for silent allocating helpers", "Also decides that the failure of a helper that allocates and reports nothing itself is "
+               "reported as a system error (errno kept) unless errno is examined first.")
+_extend("C13", "mark/count pairing of vnaproperty_quote_key", "Also decides that every position marked for quoting advances the counter that sizes the quoted key.")
